@@ -63,6 +63,7 @@ class VSock:
         self.keep_sent = False
         self.send_calls = 0
         self.fail_send_at: Optional[int] = None  # harness-injected write fault at the k-th send
+        self.timeout = None  # settimeout(): None = blocking
         self.shut = False  # shutdown() was called on this end
         self.err_pipe = False  # a reset in answer to our own write has arrived and no send has reported it yet
         self.send_free: Optional[int] = None  # free space of the send buffer as a non-blocking send would find it (None = plenty)
@@ -95,7 +96,19 @@ class VSock:
         return self.addr
 
     def settimeout(self, t):
-        pass
+        # None: blocking; 0: non-blocking; > 0: the descriptor is non-blocking underneath and every call waits at most t for readiness
+        if t is not None and t < 0:
+            raise ValueError("Timeout value out of range")
+        self.timeout = t
+
+    def gettimeout(self):
+        return self.timeout
+
+    def setblocking(self, flag):
+        self.timeout = None if flag else 0.0
+
+    def getblocking(self):
+        return self.timeout is None
 
     def connect(self, addr):
         self._chk()
@@ -151,6 +164,17 @@ class VSock:
         self._chk()
         if n == 0:
             return b""
+        if self.timeout is not None:
+            # a socket with a timeout is non-blocking underneath: MSG_WAITALL cannot wait for the rest, the call returns what has
+            # arrived once anything has (and reports a timeout / EAGAIN when nothing does)
+            if not self.rx and self.peer == "open" and not self.err:
+                if self.timeout > 0 and not self.net.on_mgr_thread() and self.net.cli_pump:
+                    self.net.cli_pump()
+                if not self.rx and self.peer == "open" and not self.err:
+                    if self.timeout == 0:
+                        raise BlockingIOError(errno.EAGAIN, "Resource temporarily unavailable")
+                    raise _rs.timeout("timed out")
+            waitall = False
         if not waitall and self.rx:
             # without MSG_WAITALL a read returns what has arrived: at most the first pending segment
             return self._take(min(n, self.segs[0] if self.segs else len(self.rx)))
@@ -666,6 +690,9 @@ def _do(s, op, arg, real):
                 s.send_free = 100
                 s.sendall(b"x" * 1000, _rs.MSG_DONTWAIT)
             return "ok"
+        if op == "settimeout":
+            s.settimeout(arg)
+            return "ok"
         if op == "shutdown":
             s.shutdown(_rs.SHUT_RDWR)
             return "ok"
@@ -724,6 +751,10 @@ SCENARIOS = {
     "fin, send, shutdown": [("A", "close"), ("B", "send", b"x"), ("B", "shutdown")],
     "fin, send x2, shutdown": [("A", "close"), ("B", "send", b"x"), ("B", "send", b"y"), ("B", "shutdown")],
     "local close, shutdown": [("B", "close"), ("B", "shutdown")],
+    "timeout socket: waitall returns what has arrived": [("B", "settimeout", 0.2), ("A", "send", b"abc"), ("B", "recv", 5), ("A", "send", b"de"), ("B", "recv", 5), ("A", "close"), ("B", "recv", 5)],
+    "timeout socket: nothing arrives": [("B", "settimeout", 0.02), ("B", "recv", 5), ("A", "send", b"a"), ("B", "recv", 5)],
+    "non-blocking socket": [("B", "settimeout", 0.0), ("B", "recv", 5), ("A", "send", b"abc"), ("B", "recv", 5), ("A", "rst"), ("B", "recv", 5)],
+    "timeout taken off again": [("B", "settimeout", 0.2), ("B", "settimeout", None), ("A", "send", b"abc"), ("A", "close"), ("B", "recv", 5), ("B", "recv", 5)],
     "data both ways then fin": [("A", "send", b"ab"), ("B", "send", b"cd"), ("A", "recv", 2), ("A", "close"), ("B", "recv", 2), ("B", "recv", 2), ("B", "send", b"e"), ("B", "send", b"f")],
 }
 
